@@ -658,7 +658,9 @@ func genC03(tier string, emit func(any)) {
 	}
 	var seqs [][]string
 	kit.Seqs(names, maxLen, func(s []string) { seqs = append(seqs, s) })
-	special := [][]string{{"a", "a", "a"}, {"a", "ia", "a'"}, {"X", "a"}, {"L128", "a", "L16384", "a"}, {"ip1", "ip2"}, {"ip1", "a", "ip2"}}
+	special := [][]string{{"a", "a", "a"}, {"a", "ia", "a'"}, {"X", "a"}, {"L128", "a", "L16384", "a"}, {"ip1", "ip2"}, {"ip1", "a", "ip2"},
+		// sections that carry no block data (nothing to skip after the CID), first, in the middle, last, repeated
+		{"e", "a"}, {"a", "e", "b"}, {"a", "e"}, {"e", "e", "a"}, {"i0", "a"}, {"a", "i0", "e", "b"}}
 	seqs = append(seqs, special...)
 	for _, sq := range seqs {
 		for _, cont := range c03ContsCore {
